@@ -9,13 +9,24 @@ an oracle-only family subscribes with PARTIAL callback forms (on_next only, ...:
 on_error raises) and compares with the same run made with observer objects.
 C23 additionally runs the histories on a spied subclass of AsyncSubject whose shared fields are properties
 checking that asyncsubject.py's own methods touch them only while subject.lock is held (the anchor
-`value/has_value captured under lock`)."""
+`value/has_value captured under lock`).
+TWO-THREAD family (harness/subj_conc.py, oracle-only): thread A subscribes / unsubscribes while thread B makes
+one complete on_next / on_completed / on_error / dispose call, B being released at every acquire/release point of
+A's operation on subject.lock (instrumented proxy); every such run must show the outcome of [A; B] or of [B; A]
+according to an independent reference written from the statement."""
+import json
+
 import subj
+import subj_conc
 
 
 def run(chk):
+    subj_conc.install(chk, "C23", "async")      # runs just before chk.finish
     return subj.check_sync(chk, "C23")
 
 
 def replay(chk, path):
+    d = json.load(open(path))
+    if d.get("family") == "subj_conc":
+        return subj_conc.replay(chk, "C23", d, path)
     return subj.replay_sync(chk, "C23", path)
